@@ -336,6 +336,35 @@ def enums_and_vars(ck, bindgen, tmp, quick):
         if not m or m.group(1).replace("_", "").strip() != v:
             ck.violation("C05-const-var:" + k, "const variable does not carry the C value", {"header": open(h).read(), "name": k, "expected": v, "emitted": m.group(0) if m else None})
     ck.sample({"const_vars_checked": sorted(expect)})
+    # corner constants: 128-bit integers, long double, character literals with the sign bit, wide literals
+    h = os.path.join(tmp, "corner.h")
+    open(h, "w").write("static const unsigned __int128 V128 = ((unsigned __int128)1) << 100;\nstatic const __int128 N128 = -5;\nstatic const __int128 P128 = 7;\n"
+                       "static const long double LD = 0.5L;\n#define CH_HI '\\xff'\n#define CH_LO 'a'\n#define WCH L'a'\nstatic const signed char SC = -2;\nstatic const unsigned char UC = 200;\n")
+    rc, out, err = sh2([bindgen, h, "--no-layout-tests"], timeout=60)
+    ck.evaluations += 1
+    ck.nontrivial.add("corner-constants")
+    data = {"header": open(h).read(), "emitted": re.findall(r"pub const [^;]*;", out)}
+    def emitted_const(k):
+        m = re.search(r"pub const %s: ([\w:]+) = ([^;]+);" % k, out)
+        return (m.group(1), m.group(2).strip()) if m else None
+    # C: V128 = 2^100, N128 = -5, P128 = 7, LD = 0.5, CH_HI = -1 (int; char is signed here), CH_LO = 97, WCH = 97, SC = -2, UC = 200
+    e = emitted_const("V128")
+    if e and re.sub(r"[_a-z0-9]*$", "", e[1]) != str(2 ** 100) and not e[1].startswith(str(2 ** 100)):
+        ck.violation("C05-const-var:int128-value", "a 128-bit const variable does not carry the C value (C: 2^100; a constant that cannot be evaluated faithfully must be omitted)", dict(data, name="V128", emitted_value=e))
+    for k, want in (("N128", -5), ("P128", 7), ("SC", -2), ("UC", 200), ("CH_LO", 97), ("WCH", 97)):
+        e = emitted_const(k)
+        if e:
+            mm = re.match(r"-?\d+", e[1])
+            if not mm or int(mm.group(0)) != want:
+                ck.violation("C05-const-var:" + k, "a constant does not carry the C value", dict(data, name=k, expected=want, emitted_value=e))
+    e = emitted_const("CH_HI")
+    if e:
+        mm = re.match(r"-?\d+", e[1])
+        if mm and int(mm.group(0)) != -1:
+            ck.violation("C05-macro:char-literal-sign", "the character constant '\\xff' has the value -1 in C (int, char is signed on this target); the emitted constant is %s: %s" % e, dict(data, name="CH_HI", expected=-1, emitted_value=e))
+    e = emitted_const("LD")
+    if e and not re.match(r"f(32|64|128)$|.*c_double|.*c_longdouble", e[0]):
+        ck.violation("C05-const-var:long-double-type", "a long double constant is emitted with an integer type (`%s = %s`): not a type that can hold the value (rustc rejects it)" % e, dict(data, name="LD", emitted_value=e))
     float_family(ck, bindgen, tmp)
 
 
